@@ -19,15 +19,19 @@ def sh(cmd, cwd=None, timeout=900, env=None):
     return r.returncode, (r.stdout + r.stderr)
 
 
-def evaluate(diff, demo, pid, all_props=False, keep=None):
-    wt = tempfile.mkdtemp(prefix="eqsig_seed_")
-    os.rmdir(wt)
+def evaluate(diff, demo, pid, all_props=False, wt=None):
+    """wt: the scratch worktree the change was written for (demos may hard-code its path); it is left clean afterwards."""
     out = {"diff": diff, "property": pid}
-    try:
+    own = wt is None
+    if own:
+        wt = tempfile.mkdtemp(prefix="eqsig_seed_")
+        os.rmdir(wt)
         rc, o = sh(["git", "-C", "/repo", "worktree", "add", "-q", "--detach", wt, "HEAD"])
         if rc:
             out["error"] = "worktree: " + o
             return out
+    try:
+        sh(["git", "checkout", "--", "."], cwd=wt)
         env = dict(os.environ, PYTHONPATH=wt, PYTHONDONTWRITEBYTECODE="1")
         rc, o = sh([PY, demo], cwd=wt, env=env, timeout=600)
         out["demo_clean"] = rc
@@ -55,17 +59,21 @@ def evaluate(diff, demo, pid, all_props=False, keep=None):
         out["caught_by_any"] = [p for p, v in out["checks"].items() if v["exit"] == 1]
         return out
     finally:
-        sh(["git", "-C", "/repo", "worktree", "remove", "--force", wt])
-        shutil.rmtree(wt, ignore_errors=True)
+        sh(["git", "checkout", "--", "."], cwd=wt)
+        sh("find . -name __pycache__ -prune -exec rm -rf {} +", cwd=wt)
+        if own:
+            sh(["git", "-C", "/repo", "worktree", "remove", "--force", wt])
+            shutil.rmtree(wt, ignore_errors=True)
 
 
 if __name__ == "__main__":
     d, pid = sys.argv[1], sys.argv[2]
     allp = "--all-props" in sys.argv
+    wt = os.path.dirname(os.path.abspath(d)) if os.path.isdir(os.path.join(os.path.dirname(os.path.abspath(d)), "eqsig")) else None
     res = []
     for k in (1, 2, 3):
         diff, demo = os.path.join(d, "mut%d.diff" % k), os.path.join(d, "demo%d.py" % k)
         if os.path.exists(diff) and os.path.exists(demo):
-            r = evaluate(diff, demo, pid, allp)
+            r = evaluate(diff, demo, pid, allp, wt)
             res.append(r)
             print(json.dumps(r, indent=1))
